@@ -5,4 +5,7 @@ export CARGO_NET_OFFLINE=true
 cd /verif/engine
 cargo build --release --offline
 cd /repo && CARGO_TARGET_DIR=/verif/work/target-iwe cargo build --release --offline -p iwe
+
+# libFuzzer targets for the thorough tier (./check builds them again when needed; not fatal here)
+(cd /verif/engine/fuzz && cargo +nightly fuzz build -O -s none >/verif/work/build.fuzz.log 2>&1 && echo "fuzz targets ok") || echo "warning: fuzz targets not built (see /verif/work/build.fuzz.log); the quick tier does not need them"
 echo "setup ok"
